@@ -292,50 +292,71 @@ theorem appendBufferOpen_spec (w : World) (q : Cq) (d : Bytes) :
   have hs := acquire_same w w.cs
   exact ⟨hs, fun hq => pushChunk_qv (hq.mono hs.grows) (mem_chunk_valid ..) (mem_chunk_rem ..)⟩
 
-theorem getUseMemory_spec (w : World) (q : Cq) (req : Nat) (data : Bytes) :
-    SameFiles w (getUseMemory w q req data).1 ∧
-      (QV w q → QV (getUseMemory w q req data).1 (getUseMemory w q req data).2.1) := by
-  unfold getUseMemory
+/-- the shape of most per-function facts: file contents untouched, accounting kept -/
+def QStep (w : World) (q : Cq) (r : World × Cq) : Prop :=
+  SameFiles w r.1 ∧ (QV w q → QV r.1 r.2)
+
+theorem QStep.mk' {w : World} {q : Cq} {w' : World} {q' : Cq} (h1 : SameFiles w w')
+    (h2 : QV w q → QV w' q') : QStep w q (w', q') := ⟨h1, h2⟩
+
+theorem lastMemFits_some {q : Cq} {sz : Nat} {old : Bytes} {off cap : Nat}
+    (h : lastMemFits q sz = some (old, off, cap)) : q.chunks.getLast? = some (.mem old off cap) := by
+  unfold lastMemFits at h
+  split at h
+  · rename_i o2 off2 cap2 hl
+    split at h
+    · cases h; exact hl
+    · cases h
+  · cases h
+
+theorem extendLast_qv {w : World} {q : Cq} {old d : Bytes} {off cap cap' : Nat} (hq : QV w q)
+    (hl : q.chunks.getLast? = some (.mem old off cap)) :
+    QV w { q with chunks := setLast q.chunks (.mem (old ++ d) off cap'), bytesIn := q.bytesIn + d.length } := by
+  have hw := valid_last hq.valid hl
+  have hr := remSum_last hl
+  have := hq.len
+  simp only [Chunk.Valid] at hw
+  refine ⟨valid_setLast hq.valid (by simp only [Chunk.Valid, List.length_append]; omega), ?_⟩
+  simp only [remSum_setLast, Chunk.rem, List.length_append] at *
+  omega
+
+theorem useExisting_qv {w : World} {q : Cq} {old : Bytes} {off cap : Nat} (data : Bytes) (hq : QV w q)
+    (hl : q.chunks.getLast? = some (.mem old off cap)) : QV w (useExisting q old off cap data) := by
+  unfold useExisting
   dsimp only
   split
-  · -- data goes into the existing last chunk
-    rename_i old off cap hfit
+  · exact hq
+  · exact extendLast_qv hq hl
+
+theorem useNew_spec (w : World) (q : Cq) (cap : Nat) (data : Bytes) : QStep w q (useNew w q cap data) := by
+  unfold useNew
+  dsimp only
+  split
+  · exact QStep.mk' (release_same w _) fun hq => hq.mono (release_same w _).grows
+  · split
+    · rename_i old off pcap hl
+      split
+      · exact QStep.mk' (SameFiles.refl w) fun hq => pushChunk_qv hq (mem_chunk_valid ..) (mem_chunk_rem ..)
+      · exact QStep.mk' (release_same w _) fun hq => (extendLast_qv hq hl).mono (release_same w _).grows
+    · exact QStep.mk' (SameFiles.refl w) fun hq => pushChunk_qv hq (mem_chunk_valid ..) (mem_chunk_rem ..)
+
+def QStep3 {α : Type} (w : World) (q : Cq) (r : World × Cq × α) : Prop := QStep w q (r.1, r.2.1)
+
+theorem getUseMemory_spec (w : World) (q : Cq) (req : Nat) (data : Bytes) :
+    QStep3 w q (getUseMemory w q req data) := by
+  unfold getUseMemory
+  split
+  · rename_i old off cap hfit
+    exact ⟨SameFiles.refl w, fun hq => useExisting_qv data hq (lastMemFits_some hfit)⟩
+  · split
+    rename_i w' cap ha
     split
-    · exact ⟨SameFiles.refl w, id⟩
-    · refine ⟨SameFiles.refl w, fun hq => ?_⟩
-      have hl : q.chunks.getLast? = some (.mem old off cap) := by
-        revert hfit
-        split
-        · rename_i o2 off2 cap2 hl
-          split
-          · intro h; cases h; exact hl
-          · intro h; cases h
-        · intro h; cases h
-      have hw := valid_last hq.valid hl
-      have hr := remSum_last hl
-      have := hq.len
-      simp only [Chunk.Valid] at hw
-      refine ⟨valid_setLast hq.valid (by simp only [Chunk.Valid, List.length_append]; omega), ?_⟩
-      simp only [remSum_setLast, Chunk.rem, List.length_append] at *
-      omega
-  · -- a new chunk was opened
-    have hs := acquire_same w (if req = 0 then w.cs / 2 else req)
-    split
-    · exact ⟨hs.trans (release_same _ _), fun hq => hq.mono (hs.trans (release_same _ _)).grows⟩
-    · split
-      · rename_i old off pcap hl
-        split
-        · exact ⟨hs, fun hq => pushChunk_qv (hq.mono hs.grows) (mem_chunk_valid ..) (mem_chunk_rem ..)⟩
-        · refine ⟨hs.trans (release_same _ _), fun hq => ?_⟩
-          have hw := valid_last hq.valid hl
-          have hr := remSum_last hl
-          have := hq.len
-          simp only [Chunk.Valid] at hw
-          refine QV.mono ⟨valid_setLast hq.valid
-            (by simp only [Chunk.Valid, List.length_append]; omega), ?_⟩ (hs.trans (release_same _ _)).grows
-          simp only [remSum_setLast, Chunk.rem, List.length_append] at *
-          omega
-      · exact ⟨hs, fun hq => pushChunk_qv (hq.mono hs.grows) (mem_chunk_valid ..) (mem_chunk_rem ..)⟩
+    rename_i w'' q' hu
+    have hs := acquire_same w (memReq w req)
+    rw [ha] at hs
+    have h := useNew_spec w' q cap data
+    rw [hu] at h
+    exact ⟨hs.trans h.1, fun hq => h.2 (hq.mono hs.grows)⟩
 
 theorem appendFile_spec (w : World) (q : Cq) (fid off len : Nat) (fd : Bool) :
     SameFiles w (appendFile w q fid off len fd).1 ∧
@@ -413,12 +434,633 @@ theorem rfLoop_spec (w : World) (cs : List Chunk) :
       exact ⟨h1, by rw [h2]; simp [h0]⟩
     · exact ⟨SameFiles.refl w, fun hval => ⟨hval, rfl⟩⟩
 
-theorem removeFinished_spec (w : World) (q : Cq) :
-    SameFiles w (removeFinished w q).1 ∧ (QV w q → QV (removeFinished w q).1 (removeFinished w q).2) := by
+theorem removeFinished_spec (w : World) (q : Cq) : QStep w q (removeFinished w q) := by
   obtain ⟨hs, hv⟩ := rfLoop_spec w q.chunks
   refine ⟨hs, fun hq => ?_⟩
   obtain ⟨h1, h2⟩ := hv hq.valid
   exact ⟨h1, by simp only [removeFinished, h2]; exact hq.len⟩
 
+theorem reLoop_spec (w : World) (c : Chunk) (cs : List Chunk) :
+    SameFiles w (reLoop w c cs).1 ∧
+      (ValidAll w (c :: cs) → ValidAll (reLoop w c cs).1 (reLoop w c cs).2 ∧
+        remSum (reLoop w c cs).2 = remSum (c :: cs)) := by
+  fun_induction reLoop w c cs with
+  | case1 w c => exact ⟨SameFiles.refl w, fun hv => ⟨hv, rfl⟩⟩
+  | case2 w c n h0 =>
+    have hr := release_same w n
+    exact ⟨hr, fun hv => ⟨(ValidAll.single hv.head).mono hr.grows, by simp [h0]⟩⟩
+  | case3 w c n h0 m rest' w' t heq ih =>
+    have hr := release_same w n
+    rw [heq] at ih
+    obtain ⟨hs, hv2⟩ := ih
+    refine ⟨hr.trans hs, fun hv => ?_⟩
+    obtain ⟨h1, h2⟩ := hv2 (hv.tail.tail.mono hr.grows)
+    refine ⟨ValidAll.cons (hv.head.mono (hr.trans hs).grows) h1, ?_⟩
+    simp only [remSum_cons] at *
+    omega
+  | case4 w c n rest h0 w' t heq ih =>
+    rw [heq] at ih
+    obtain ⟨hs, hv2⟩ := ih
+    refine ⟨hs, fun hv => ?_⟩
+    obtain ⟨h1, h2⟩ := hv2 hv.tail
+    refine ⟨ValidAll.cons (hv.head.mono hs.grows) h1, ?_⟩
+    simp only [remSum_cons] at *
+    omega
+
+theorem removeEmpty_spec (w : World) (q : Cq) : QStep w q (removeEmpty w q) := by
+  unfold removeEmpty
+  split
+  rename_i w1 cs1 h1
+  have hf := rfLoop_spec w q.chunks
+  rw [h1] at hf
+  obtain ⟨hs1, hv1⟩ := hf
+  split
+  · refine QStep.mk' hs1 fun hq => ?_
+    obtain ⟨_, e⟩ := hv1 hq.valid
+    exact ⟨ValidAll.nil _, by simpa [← e] using hq.len⟩
+  · rename_i c rest
+    split
+    rename_i w2 cs2 h2
+    have hr := reLoop_spec w1 c rest
+    rw [h2] at hr
+    obtain ⟨hs2, hv2⟩ := hr
+    refine QStep.mk' (hs1.trans hs2) fun hq => ?_
+    obtain ⟨v1, e1⟩ := hv1 hq.valid
+    obtain ⟨v2, e2⟩ := hv2 v1
+    exact ⟨v2, by simpa [e2, e1] using hq.len⟩
+
+theorem compactMemOffset_qv {w : World} {q : Cq} (hq : QV w q) : QV w (compactMemOffset q) := by
+  unfold compactMemOffset
+  split
+  · rename_i d off cap rest hc
+    split
+    · exact hq
+    · have hv := hq.valid
+      have hl := hq.len
+      rw [hc] at hv hl
+      have h0 := hv.head
+      simp only [Chunk.Valid] at h0
+      refine ⟨ValidAll.cons (by simp [Chunk.Valid]) hv.tail, ?_⟩
+      simp only [remSum_cons, Chunk.rem, List.length_drop] at *
+      omega
+  · exact hq
+
+theorem cmLoop_spec (w : World) (data : Bytes) (off cap : Nat) (cs : List Chunk) (need : Nat) :
+    SameFiles w (cmLoop w data off cap cs need).1 ∧
+      (off ≤ data.length → ValidAll w cs →
+        ValidAll (cmLoop w data off cap cs need).1 (cmLoop w data off cap cs need).2 ∧
+        remSum (cmLoop w data off cap cs need).2 = (data.length - off) + remSum cs) := by
+  fun_induction cmLoop w data off cap cs need with
+  | case1 w data cap need =>
+    exact ⟨SameFiles.refl w, fun ho _ => ⟨ValidAll.single (by simpa [Chunk.Valid] using ho), by simp [Chunk.rem]⟩⟩
+  | case2 w data cap c rest =>
+    exact ⟨SameFiles.refl w, fun ho hv =>
+      ⟨ValidAll.cons (by simpa [Chunk.Valid] using ho) hv, by simp [Chunk.rem]⟩⟩
+  | case3 w data cap rest need hn d2 off2 cap2 l2 hgt =>
+    refine ⟨SameFiles.refl w, fun ho hv => ?_⟩
+    have h2 := hv.head
+    simp only [Chunk.Valid] at h2
+    refine ⟨ValidAll.cons (by simp only [Chunk.Valid, List.length_append]; omega)
+      (ValidAll.cons (by simp only [Chunk.Valid]; omega) hv.tail), ?_⟩
+    simp only [remSum_cons, Chunk.rem, List.length_append, List.length_take, List.length_drop]
+    omega
+  | case4 w data cap rest need hn d2 off2 cap2 l2 hle ih =>
+    have hr := release_same w (.mem d2 off2 cap2)
+    obtain ⟨hs, hv2⟩ := ih
+    refine ⟨hr.trans hs, fun ho hv => ?_⟩
+    have h2 := hv.head
+    simp only [Chunk.Valid] at h2
+    obtain ⟨v, e⟩ := hv2 (by simp only [List.length_append]; omega) (hv.tail.mono hr.grows)
+    refine ⟨v, ?_⟩
+    rw [e]
+    simp only [remSum_cons, Chunk.rem, List.length_append, List.length_drop]
+    omega
+  | case5 w data cap c rest need hn hc =>
+    exact ⟨SameFiles.refl w, fun ho hv =>
+      ⟨ValidAll.cons (by simpa [Chunk.Valid] using ho) hv, by simp [Chunk.rem]⟩⟩
+
+theorem compactMem_spec (w : World) (q : Cq) (clen : Nat) : QStep w q (compactMem w q clen) := by
+  unfold compactMem
+  split
+  · rename_i d off cap rest hc
+    dsimp only
+    have key : ∀ (w0 w1 : World) (data : Bytes) (o c : Nat) (need : Nat), SameFiles w w0 →
+        w1 = w0 → o ≤ data.length → data.length - o = d.length - off →
+        QStep w q ((cmLoop w1 data o c rest need).1, { q with chunks := (cmLoop w1 data o c rest need).2 }) := by
+      intro w0 w1 data o c need hs0 e ho hlen
+      subst e
+      obtain ⟨hs, hv⟩ := cmLoop_spec w1 data o c rest need
+      refine QStep.mk' (hs0.trans hs) fun hq => ?_
+      have hval := hq.valid
+      have hl := hq.len
+      rw [hc] at hval hl
+      obtain ⟨v, e⟩ := hv ho (hval.tail.mono hs0.grows)
+      refine ⟨v, ?_⟩
+      simp only [remSum_cons, Chunk.rem] at hl
+      simp only [e]
+      omega
+    split
+    · exact QStep.mk' (SameFiles.refl w) id
+    · split
+      · split
+        · exact key w w (d.drop off) 0 cap (clen - (d.length - off)) (SameFiles.refl w) rfl
+            (Nat.zero_le _) (by simp)
+        · by_cases ho : off ≤ d.length
+          · exact key w w d off cap (clen - (d.length - off)) (SameFiles.refl w) rfl ho rfl
+          · have hs := (cmLoop_spec w d off cap rest (clen - (d.length - off))).1
+            refine QStep.mk' hs fun hq => absurd ?_ ho
+            have hval := hq.valid
+            rw [hc] at hval
+            simpa [Chunk.Valid] using hval.head
+      · have ha := acquire_same w (clen + 1)
+        have hr := release_same (acquire w (clen + 1)).1 (.mem d off cap)
+        exact key _ _ (d.drop off) 0 _ (clen - (d.length - off)) (ha.trans hr) rfl
+          (Nat.zero_le _) (by simp)
+  · exact QStep.mk' (SameFiles.refl w) id
+
+/-! ## the queued bytes -/
+
+@[simp] theorem absChunks_nil (w : World) : absChunks w [] = [] := rfl
+
+@[simp] theorem absChunks_cons (w : World) (c : Chunk) (cs : List Chunk) :
+    absChunks w (c :: cs) = c.content w ++ absChunks w cs := by simp [absChunks]
+
+@[simp] theorem absChunks_append (w : World) (a b : List Chunk) :
+    absChunks w (a ++ b) = absChunks w a ++ absChunks w b := by simp [absChunks]
+
+theorem content_same {w w' : World} (h : SameFiles w w') (c : Chunk) : c.content w' = c.content w := by
+  cases c <;> simp [Chunk.content, h.content]
+
+theorem absChunks_same {w w' : World} (h : SameFiles w w') (cs : List Chunk) :
+    absChunks w' cs = absChunks w cs := by
+  induction cs with
+  | nil => rfl
+  | cons c cs ih => simp [ih, content_same h]
+
+theorem content_length {w : World} {c : Chunk} (h : c.Valid w) : (c.content w).length = c.rem := by
+  cases c with
+  | mem d off cap => simp [Chunk.content, Chunk.rem]
+  | file fid off len t fd =>
+    simp only [Chunk.Valid, sz] at h
+    simp only [Chunk.content, Chunk.rem, List.length_take, List.length_drop]
+    omega
+
+theorem absChunks_length {w : World} {cs : List Chunk} (h : ValidAll w cs) :
+    (absChunks w cs).length = remSum cs := by
+  induction cs with
+  | nil => rfl
+  | cons c cs ih => simp [ih h.tail, content_length h.head]
+
+theorem abs_setLast {w : World} {cs : List Chunk} {c c' : Chunk} {x : Bytes}
+    (hl : cs.getLast? = some c) (hc : c'.content w = c.content w ++ x) :
+    absChunks w (setLast cs c') = absChunks w cs ++ x := by
+  conv => rhs; rw [split_last hl]
+  simp [setLast, hc]
+
+theorem content_adv {w : World} {c : Chunk} {n : Nat} (hn : n ≤ c.rem) :
+    (c.adv n).content w = (c.content w).drop n := by
+  cases c with
+  | mem d off cap => simp [Chunk.adv, Chunk.content, Nat.add_comm]
+  | file fid off len t fd =>
+    simp only [Chunk.rem] at hn
+    simp only [Chunk.adv, Chunk.content, List.drop_take, List.drop_drop]
+    congr 1
+    omega
+
+/-- the operation appended exactly the bytes `d` to the queue -/
+def Appends (w : World) (q : Cq) (d : Bytes) (r : World × Cq) : Prop :=
+  QV w q → SameFiles w r.1 → r.2.abs r.1 = q.abs w ++ d
+
+theorem Appends.mk' {w : World} {q : Cq} {d : Bytes} {w' : World} {q' : Cq}
+    (h : QV w q → absChunks w q'.chunks = absChunks w q.chunks ++ d) : Appends w q d (w', q') := by
+  intro hq hs
+  simp only [Cq.abs]
+  rw [absChunks_same hs]
+  exact h hq
+
+theorem pushChunk_abs (w : World) (q : Cq) (c : Chunk) (n : Nat) :
+    absChunks w (pushChunk q c n).chunks = absChunks w q.chunks ++ c.content w := by
+  simp [pushChunk]
+
+theorem extendLast_abs {w : World} {q : Cq} {old d : Bytes} {off cap cap' : Nat} (hq : QV w q)
+    (hl : q.chunks.getLast? = some (.mem old off cap)) :
+    absChunks w (setLast q.chunks (.mem (old ++ d) off cap')) = absChunks w q.chunks ++ d := by
+  have hw := valid_last hq.valid hl
+  simp only [Chunk.Valid] at hw
+  refine abs_setLast hl ?_
+  simp [Chunk.content, List.drop_append_of_le_length hw]
+
+theorem appendMemExtend_abs {w : World} {q q' : Cq} {d : Bytes} (h : appendMemExtend q d = some q')
+    (hq : QV w q) : absChunks w q'.chunks = absChunks w q.chunks ++ d := by
+  unfold appendMemExtend at h
+  split at h
+  · rename_i h0
+    cases h
+    have : d = [] := List.eq_nil_of_length_eq_zero h0
+    simp [this]
+  · split at h
+    · rename_i data off cap hl
+      split at h
+      · cases h
+        exact extendLast_abs hq hl
+      · cases h
+    · cases h
+
+theorem mem_content (w : World) (d : Bytes) (cap : Nat) : (Chunk.mem d 0 cap).content w = d := by
+  simp [Chunk.content]
+
+theorem appendMem_abs (w : World) (q : Cq) (d : Bytes) : Appends w q d (appendMem w q d) := by
+  unfold appendMem
+  split
+  · rename_i q' h
+    refine Appends.mk' fun hq => ?_
+    split at h
+    · exact appendMemExtend_abs h hq
+    · cases h
+  · exact Appends.mk' fun _ => by rw [pushChunk_abs, mem_content]
+
+theorem appendMemMin_abs (w : World) (q : Cq) (d : Bytes) : Appends w q d (appendMemMin w q d) := by
+  unfold appendMemMin
+  split
+  · rename_i q' h
+    refine Appends.mk' fun hq => ?_
+    split at h
+    · exact appendMemExtend_abs h hq
+    · cases h
+  · exact Appends.mk' fun _ => by rw [pushChunk_abs, mem_content]
+
+theorem appendBuffer_abs (w : World) (q : Cq) (d : Bytes) : Appends w q d (appendBuffer w q d) := by
+  unfold appendBuffer
+  split
+  · rename_i q' h
+    refine Appends.mk' fun hq => ?_
+    split at h
+    · exact appendMemExtend_abs h hq
+    · cases h
+  · exact Appends.mk' fun _ => by rw [pushChunk_abs, mem_content]
+
+theorem appendBufferOpen_abs (w : World) (q : Cq) (d : Bytes) : Appends w q d (appendBufferOpen w q d) :=
+  Appends.mk' fun _ => by rw [pushChunk_abs, mem_content]
+
+theorem useExisting_abs {w : World} {q : Cq} {old : Bytes} {off cap : Nat} (data : Bytes) (hq : QV w q)
+    (hl : q.chunks.getLast? = some (.mem old off cap)) :
+    absChunks w (useExisting q old off cap data).chunks =
+      absChunks w q.chunks ++ data.take (space old.length cap) := by
+  unfold useExisting
+  dsimp only
+  split
+  · rename_i h0
+    simp [List.eq_nil_of_length_eq_zero h0]
+  · exact extendLast_abs hq hl
+
+theorem useNew_abs (w : World) (q : Cq) (cap : Nat) (data : Bytes) :
+    Appends w q (data.take (space 0 cap)) (useNew w q cap data) := by
+  unfold useNew
+  dsimp only
+  split
+  · rename_i h0
+    exact Appends.mk' fun _ => by simp [List.eq_nil_of_length_eq_zero h0]
+  · split
+    · rename_i old off pcap hl
+      split
+      · exact Appends.mk' fun _ => by rw [pushChunk_abs, mem_content]
+      · exact Appends.mk' fun hq => extendLast_abs hq hl
+    · exact Appends.mk' fun _ => by rw [pushChunk_abs, mem_content]
+
+/-- get_memory/use_memory append the first `avail` bytes the caller offered -/
+theorem getUseMemory_abs (w : World) (q : Cq) (req : Nat) (data : Bytes) (hq : QV w q) :
+    (getUseMemory w q req data).2.1.abs (getUseMemory w q req data).1 =
+      q.abs w ++ data.take (getUseMemory w q req data).2.2 := by
+  have hsame := (getUseMemory_spec w q req data).1
+  revert hsame
+  unfold getUseMemory
+  split
+  · rename_i old off cap hfit
+    intro _
+    exact useExisting_abs data hq (lastMemFits_some hfit)
+  · split
+    rename_i w' cap ha
+    split
+    rename_i w'' q' hu
+    intro hsame
+    have hs := acquire_same w (memReq w req)
+    rw [ha] at hs
+    have h := useNew_abs w' q cap data
+    rw [hu] at h
+    have h2 := (useNew_spec w' q cap data).1
+    rw [hu] at h2
+    have := h (hq.mono hs.grows) h2
+    simp only [Cq.abs] at *
+    rw [this, absChunks_same hs]
+
+theorem appendFile_abs (w : World) (q : Cq) (fid off len : Nat) (fd : Bool) :
+    Appends w q (((w.files fid).content.drop off).take len) (appendFile w q fid off len fd) := by
+  unfold appendFile
+  split
+  · refine Appends.mk' fun _ => ?_
+    rw [pushChunk_abs]
+    simp [Chunk.content]
+  · rename_i h0
+    refine Appends.mk' fun _ => ?_
+    have : len = 0 := by omega
+    simp [this]
+
+theorem appendChunkqueue_abs (w : World) (dest src : Cq) :
+    (appendChunkqueue dest src).1.abs w = dest.abs w ++ src.abs w ∧ (appendChunkqueue dest src).2.abs w = [] := by
+  unfold appendChunkqueue
+  split
+  · rename_i h
+    simp [Cq.abs, h]
+  · simp [Cq.abs]
+
+theorem mwLoop_abs (w : World) (cs : List Chunk) (n : Nat) (hv : ValidAll w cs) :
+    absChunks w (mwLoop w cs n).2 = (absChunks w cs).drop n := by
+  induction cs generalizing w n with
+  | nil => simp [mwLoop]
+  | cons c rest ih =>
+    simp only [mwLoop]
+    have hl := content_length hv.head
+    split
+    · rename_i hge
+      have hr := release_same w c
+      have := ih (release w c) (n - c.rem) (hv.tail.mono hr.grows)
+      simp only [absChunks_same hr] at this
+      rw [this, absChunks_cons, List.drop_append, hl]
+      have : (c.content w).drop n = [] := List.drop_of_length_le (by omega)
+      simp [this]
+    · rename_i hlt
+      rw [absChunks_cons, absChunks_cons, content_adv (by omega), List.drop_append]
+      have : n - (c.content w).length = 0 := by omega
+      simp [this]
+
+theorem markWritten_abs (w : World) (q : Cq) (n : Nat) (hq : QV w q) :
+    (markWritten w q n).2.abs (markWritten w q n).1 = (q.abs w).drop n := by
+  have hs := (markWritten_spec w q n).1
+  simp only [Cq.abs]
+  rw [absChunks_same hs]
+  exact mwLoop_abs w q.chunks n hq.valid
+
+theorem content_nil_of_rem {w : World} {c : Chunk} (hv : c.Valid w) (h0 : c.rem = 0) : c.content w = [] :=
+  List.eq_nil_of_length_eq_zero (by rw [content_length hv, h0])
+
+theorem rfLoop_abs (w : World) (cs : List Chunk) (hv : ValidAll w cs) :
+    absChunks w (rfLoop w cs).2 = absChunks w cs := by
+  induction cs generalizing w with
+  | nil => rfl
+  | cons c rest ih =>
+    simp only [rfLoop]
+    split
+    · rename_i h0
+      have hr := release_same w c
+      have := ih (release w c) (hv.tail.mono hr.grows)
+      simp only [absChunks_same hr] at this
+      rw [this, absChunks_cons, content_nil_of_rem hv.head h0, List.nil_append]
+    · rfl
+
+theorem removeFinished_abs (w : World) (q : Cq) (hq : QV w q) :
+    (removeFinished w q).2.abs (removeFinished w q).1 = q.abs w := by
+  have hs := (removeFinished_spec w q).1
+  simp only [Cq.abs]
+  rw [absChunks_same hs]
+  exact rfLoop_abs w q.chunks hq.valid
+
+theorem reLoop_abs (w : World) (c : Chunk) (cs : List Chunk) (hv : ValidAll w (c :: cs)) :
+    absChunks w (reLoop w c cs).2 = absChunks w (c :: cs) := by
+  fun_induction reLoop w c cs with
+  | case1 w c => rfl
+  | case2 w c n h0 =>
+    simp [content_nil_of_rem hv.tail.head h0]
+  | case3 w c n h0 m rest' w' t heq ih =>
+    have hr := release_same w n
+    rw [heq] at ih
+    have := ih (hv.tail.tail.mono hr.grows)
+    simp only [absChunks_same hr] at this
+    simp [this, content_nil_of_rem hv.tail.head h0]
+  | case4 w c n rest h0 w' t heq ih =>
+    rw [heq] at ih
+    simp [ih hv.tail]
+
+theorem removeEmpty_abs (w : World) (q : Cq) (hq : QV w q) :
+    (removeEmpty w q).2.abs (removeEmpty w q).1 = q.abs w := by
+  have hs := (removeEmpty_spec w q).1
+  simp only [Cq.abs]
+  rw [absChunks_same hs]
+  unfold removeEmpty
+  split
+  rename_i w1 cs1 h1
+  have hf := rfLoop_spec w q.chunks
+  have ha := rfLoop_abs w q.chunks hq.valid
+  rw [h1] at hf ha
+  obtain ⟨hs1, hv1⟩ := hf
+  split
+  · exact ha
+  · rename_i c rest
+    split
+    rename_i w2 cs2 h2
+    have hr := reLoop_abs w1 c rest (hv1 hq.valid).1
+    rw [h2] at hr
+    simp only [absChunks_same hs1] at hr
+    exact hr.trans ha
+
+theorem compactMemOffset_abs (w : World) (q : Cq) : (compactMemOffset q).abs w = q.abs w := by
+  unfold compactMemOffset
+  split
+  · rename_i d off cap rest hc
+    split
+    · rfl
+    · simp [Cq.abs, hc, Chunk.content]
+  · rfl
+
+theorem cmLoop_abs (w : World) (data : Bytes) (off cap : Nat) (cs : List Chunk) (need : Nat)
+    (ho : off ≤ data.length) (hv : ValidAll w cs) :
+    absChunks w (cmLoop w data off cap cs need).2 = data.drop off ++ absChunks w cs := by
+  fun_induction cmLoop w data off cap cs need with
+  | case1 w data cap need => simp [Chunk.content]
+  | case2 w data cap c rest => simp [Chunk.content]
+  | case3 w data cap rest need hn d2 off2 cap2 l2 hgt =>
+    simp only [absChunks_cons, Chunk.content, List.drop_append_of_le_length ho, List.append_assoc]
+    congr 1
+    rw [← List.append_assoc, ← List.drop_drop, List.take_append_drop]
+  | case4 w data cap rest need hn d2 off2 cap2 l2 hle ih =>
+    have hr := release_same w (.mem d2 off2 cap2)
+    have := ih (by simp only [List.length_append]; omega) (hv.tail.mono hr.grows)
+    simp only [absChunks_same hr] at this
+    rw [this, List.drop_append_of_le_length ho]
+    simp [Chunk.content]
+  | case5 w data cap c rest need hn hc => simp [Chunk.content]
+
+theorem compactMem_abs (w : World) (q : Cq) (clen : Nat) (hq : QV w q) :
+    (compactMem w q clen).2.abs (compactMem w q clen).1 = q.abs w := by
+  have hs := (compactMem_spec w q clen).1
+  simp only [Cq.abs]
+  rw [absChunks_same hs]
+  unfold compactMem
+  split
+  · rename_i d off cap rest hc
+    dsimp only
+    have hval := hq.valid
+    rw [hc] at hval
+    have ho : off ≤ d.length := by simpa [Chunk.Valid] using hval.head
+    rw [hc]
+    split
+    · simp [hc]
+    · split
+      · split
+        · rw [cmLoop_abs w _ 0 cap rest _ (Nat.zero_le _) hval.tail]
+          simp [Chunk.content]
+        · rw [cmLoop_abs w d off cap rest _ ho hval.tail]
+          simp [Chunk.content]
+      · have ha := acquire_same w (clen + 1)
+        have hr := release_same (acquire w (clen + 1)).1 (.mem d off cap)
+        have := cmLoop_abs (release (acquire w (clen + 1)).1 (.mem d off cap)) (d.drop off) 0
+          (extendCap 0 (acquire w (clen + 1)).2 (d.length - off)) rest (clen - (d.length - off))
+          (Nat.zero_le _) (hval.tail.mono (ha.trans hr).grows)
+        simp only [absChunks_same (ha.trans hr)] at this
+        rw [this]
+        simp [Chunk.content]
+  · rfl
+
+/-! ## steal -/
+
+theorem take_content_length {w : World} {c : Chunk} {n : Nat} (hv : c.Valid w) (hn : n ≤ c.rem) :
+    ((c.content w).take n).length = n := by
+  rw [List.length_take, content_length hv]; omega
+
+theorem stealPartial_spec (w : World) (dest : Cq) (c : Chunk) (n : Nat) :
+    SameFiles w (stealPartial w dest c n).1 ∧
+      (QV w dest → c.Valid w → n ≤ c.rem →
+        QV (stealPartial w dest c n).1 (stealPartial w dest c n).2 ∧
+        absChunks w (stealPartial w dest c n).2.chunks = absChunks w dest.chunks ++ (c.content w).take n) := by
+  cases c with
+  | mem d off cap =>
+    simp only [stealPartial]
+    obtain ⟨hs, hq⟩ := appendMem_spec w dest ((d.drop off).take n)
+    refine ⟨hs, fun hd _ _ => ⟨hq hd, ?_⟩⟩
+    have := appendMem_abs w dest ((d.drop off).take n) hd hs
+    simp only [Cq.abs] at this
+    rw [absChunks_same hs] at this
+    simpa [Chunk.content] using this
+  | file fid off len t fd =>
+    simp only [stealPartial]
+    split
+    · have hs : SameFiles w (if fd.isOpen = true then w.openFd fid else w) := by
+        split
+        · exact openFd_same w fid
+        · exact SameFiles.refl w
+      refine ⟨hs, fun hd hv hn => ⟨pushChunk_qv (hd.mono hs.grows) ?_ (by simp [Chunk.rem]), ?_⟩⟩
+      · simp only [Chunk.Valid, Chunk.rem] at hv hn ⊢
+        refine ⟨by rw [hs.nfiles]; exact hv.1, by omega, ?_⟩
+        rw [hs.sz]; omega
+      · simp only [Chunk.rem] at hn
+        rw [pushChunk_abs]
+        simp only [Chunk.content, List.take_take]
+        congr 2
+        omega
+    · rename_i h0
+      have : n = 0 := by omega
+      exact ⟨SameFiles.refl w, fun hd _ _ => ⟨hd, by simp [this]⟩⟩
+
+theorem moveChunk_spec (w : World) (dest : Cq) (c : Chunk) :
+    SameFiles w (moveChunk w dest c).1 ∧
+      (QV w dest → c.Valid w →
+        QV (moveChunk w dest c).1 (moveChunk w dest c).2 ∧
+        absChunks w (moveChunk w dest c).2.chunks = absChunks w dest.chunks ++ c.content w) := by
+  unfold moveChunk
+  split
+  · exact ⟨SameFiles.refl w, fun hd hv => ⟨pushChunk_qv hd hv rfl, pushChunk_abs ..⟩⟩
+  · rename_i h0
+    have h0' : c.rem = 0 := by omega
+    have hr := release_same w c
+    exact ⟨hr, fun hd hv => ⟨hd.mono hr.grows, by simp [content_nil_of_rem hv h0']⟩⟩
+
+theorem stealLoop_spec (w : World) (dest : Cq) (cs : List Chunk) (len : Nat) :
+    SameFiles w (stealLoop w dest cs len).1 ∧
+      (QV w dest → ValidAll w cs →
+        QV (stealLoop w dest cs len).1 (stealLoop w dest cs len).2.1 ∧
+        ValidAll (stealLoop w dest cs len).1 (stealLoop w dest cs len).2.2.1 ∧
+        (stealLoop w dest cs len).2.2.2 = min len (remSum cs) ∧
+        remSum (stealLoop w dest cs len).2.2.1 = remSum cs - (stealLoop w dest cs len).2.2.2 ∧
+        absChunks w (stealLoop w dest cs len).2.1.chunks =
+          absChunks w dest.chunks ++ (absChunks w cs).take (stealLoop w dest cs len).2.2.2 ∧
+        absChunks w (stealLoop w dest cs len).2.2.1 =
+          (absChunks w cs).drop (stealLoop w dest cs len).2.2.2) := by
+  fun_induction stealLoop w dest cs len with
+  | case1 w dest len =>
+    exact ⟨SameFiles.refl w, fun hd _ => ⟨hd, ValidAll.nil w, by simp, by simp, by simp, by simp⟩⟩
+  | case2 w dest c rest len hge h0 =>
+    obtain ⟨hs, hm⟩ := moveChunk_spec w dest c
+    refine ⟨hs, fun hd hv => ?_⟩
+    obtain ⟨hq, ha⟩ := hm hd hv.head
+    have hl := content_length hv.head
+    dsimp only
+    refine ⟨hq, hv.tail.mono hs.grows, by simp only [remSum_cons]; omega,
+      by simp only [remSum_cons]; omega, ?_, ?_⟩
+    · rw [ha, absChunks_cons, List.take_append, hl, Nat.sub_self, List.take_zero, List.append_nil,
+        List.take_of_length_le (by omega)]
+    · rw [absChunks_cons, List.drop_append, hl, Nat.sub_self, List.drop_zero,
+        List.drop_of_length_le (by omega), List.nil_append]
+  | case3 w dest c rest len hge h0 w' dest' cs' moved heq ih =>
+    obtain ⟨hs, hm⟩ := moveChunk_spec w dest c
+    rw [heq] at ih
+    obtain ⟨hs2, hi⟩ := ih
+    refine ⟨hs.trans hs2, fun hd hv => ?_⟩
+    obtain ⟨hq, ha⟩ := hm hd hv.head
+    obtain ⟨i1, i2, i3, i4, i5, i6⟩ := hi hq (hv.tail.mono hs.grows)
+    have hl := content_length hv.head
+    simp only [absChunks_same hs] at i5 i6
+    simp only at i1 i2 i3 i4 i5 i6 ⊢
+    refine ⟨i1, i2, by simp only [remSum_cons]; omega, by simp only [remSum_cons]; omega, ?_, ?_⟩
+    · rw [i5, ha, absChunks_cons, List.take_append, hl, List.append_assoc]
+      congr 1
+      rw [List.take_of_length_le (l := c.content w) (by omega)]
+      congr 2
+      omega
+    · rw [i6, absChunks_cons, List.drop_append, hl]
+      rw [List.drop_of_length_le (l := c.content w) (by omega)]
+      simp only [List.nil_append]
+      congr 1
+      omega
+  | case4 w dest c rest len hlt =>
+    obtain ⟨hs, hp⟩ := stealPartial_spec w dest c len
+    refine ⟨hs, fun hd hv => ?_⟩
+    obtain ⟨hq, ha⟩ := hp hd hv.head (by omega)
+    obtain ⟨r1, r2⟩ := Chunk.rem_adv (n := len) (by omega) hv.head
+    have hl := content_length hv.head
+    refine ⟨hq, (ValidAll.cons r2 hv.tail).mono hs.grows, by simp only [remSum_cons]; omega,
+      by simp only [remSum_cons, r1]; omega, ?_, ?_⟩
+    · rw [ha, absChunks_cons, List.take_append]
+      have : len - (c.content w).length = 0 := by omega
+      simp [this]
+    · rw [absChunks_cons, absChunks_cons, content_adv (by omega), List.drop_append]
+      have : len - (c.content w).length = 0 := by omega
+      simp [this]
+
+theorem steal_spec (w : World) (dest src : Cq) (len : Nat) :
+    SameFiles w (steal w dest src len).1 ∧
+      (QV w dest → QV w src →
+        QV (steal w dest src len).1 (steal w dest src len).2.1 ∧
+        QV (steal w dest src len).1 (steal w dest src len).2.2 ∧
+        (steal w dest src len).2.1.abs w = dest.abs w ++ (src.abs w).take len ∧
+        (steal w dest src len).2.2.abs w = (src.abs w).drop len) := by
+  unfold steal
+  split
+  rename_i w' dest' cs moved heq
+  have h := stealLoop_spec w dest src.chunks len
+  rw [heq] at h
+  obtain ⟨hs, hi⟩ := h
+  refine ⟨hs, fun hd hsrc => ?_⟩
+  obtain ⟨i1, i2, i3, i4, i5, i6⟩ := hi hd hsrc.valid
+  have hl := absChunks_length hsrc.valid
+  have := hsrc.len
+  simp only at i1 i2 i3 i4 i5 i6
+  refine ⟨i1, ⟨i2, by simp only [i4]; omega⟩, ?_, ?_⟩
+  · simp only [Cq.abs, i5, i3]
+    congr 1
+    rw [List.take_eq_take_iff]
+    omega
+  · simp only [Cq.abs, i6, i3]
+    by_cases hle : len ≤ remSum src.chunks
+    · rw [Nat.min_eq_left hle]
+    · rw [Nat.min_eq_right (by omega), List.drop_of_length_le (by omega), List.drop_of_length_le (by omega)]
 
 end LtVerif.Cq
